@@ -71,10 +71,14 @@ int c_aggregate(int nval, int operator, int maxnan, int * aggindex,
             agg += inp;
         }
         else if (operator == 2){
-            agg = inp > agg ? inp : agg;
+            /* max of valid values only, starting from the first one */
+            if(!isnan(inputs[i]))
+                agg = (nagg == 1 || inp > agg) ? inp : agg;
         }
         else if (operator == 3){
-            agg = inp;
+            /* last valid value */
+            if(!isnan(inputs[i]))
+                agg = inp;
         }
     }
 
